@@ -744,6 +744,11 @@ def check_c20(tier, seed):
         po = vplib.sh([oracle, mode, d, str(bs), key, tw or "-", inp, exp], check=False)
         if po.returncode != 0:
             raise EngineError("oracle failed for %s (exit %d)" % (desc, po.returncode))
+        if not os.path.exists(out):
+            for f_ in (exp, back):
+                if os.path.exists(f_):
+                    os.remove(f_)
+            return [("C20/%s/no-output-file" % tool[mode], "%s: the tool exited 0 but there is no output file" % desc)], desc
         a = open(out, "rb").read(); b = open(exp, "rb").read()
         if a != b:
             k = next((i for i in range(min(len(a), len(b))) if a[i] != b[i]), min(len(a), len(b)))
@@ -758,7 +763,7 @@ def check_c20(tier, seed):
             p2 = vplib.sh(cmd2 + [out, back], check=False)
             orig = open(inp, "rb").read()
             want = orig if mode == "ctr" else orig[:len(orig) - len(orig) % bs]
-            if p2.returncode != 0 or open(back, "rb").read() != want:
+            if p2.returncode != 0 or not os.path.exists(back) or open(back, "rb").read() != want:
                 errs.append(("C20/%s/round-trip" % tool[mode], "%s: running the tool again%s does not restore the %s" % (desc, "" if mode == "ctr" else " with -d", "input" if mode == "ctr" else "whole blocks of the input")))
         for f_ in (out, exp, back):
             if os.path.exists(f_):
